@@ -42,6 +42,12 @@ def reader_obligations(ctx):
     generated_obligations(ctx, rd.render, "Cgreen.Gen.Reader", None, "read_reporter_results() and the decision of reporter_finish_test() rendered into Lean")
 
 
+def phase_obligations(ctx, only=None):
+    """translate/phases.py: what run_the_test_code() goes through, rendered from the current source, against the model's script"""
+    import phases as ph
+    generated_obligations(ctx, ph.render, "Cgreen.Gen.Phases", only, "run_the_test_code() rendered into Lean")
+
+
 def outside_bracket_scens():
     """Scenarios in which a failed check reaches the channel outside a test's own bracket: (scenario, description)."""
     late = []
@@ -580,6 +586,7 @@ def oracle_C08(scen, m, o, reporter):
 
 def check_C08(ctx):
     runner_lean(ctx)
+    phase_obligations(ctx)
     rng = random.Random(ctx.seed * 1000 + 8)
     bench = Bench(ctx)
     scens = []
@@ -1072,6 +1079,7 @@ def check_C04(ctx):
 
 def check_C13(ctx):
     ok, out, failed = lean_check(ctx)
+    phase_obligations(ctx, ["resets_come_first", "phases_are_the_models"])
     rng = random.Random(ctx.seed * 1000 + 13)
     bench = Bench(ctx)
     scens = []
@@ -3112,6 +3120,7 @@ def check_C09(ctx):
 # ---- C14: per-test time limit ---------------------------------------------------------------------
 def check_C14(ctx):
     lean_check(ctx)
+    phase_obligations(ctx, ["timer_covers_the_test"])
     rng = random.Random(ctx.seed * 1000 + 14)
     bench = Bench(ctx)
     scens, envs, labels = [], [], []
